@@ -274,7 +274,8 @@ func TestC05(t *testing.T) {
 			"After every transaction both sides of every collection are read (GetLinks, IterateLinks, IsLinked, GetLinkCount(s), raw buckets) and compared with an adjacency/count model and with each other; AddLink/RemoveLink's boolean must equal 'state changed'; failures must leave the dump unchanged. " +
 			"Exhaustive part: every (current set, requested list) pair for SetLinks over 3 linked ids with lists up to length 3 (quick) / 4 ids, length 4 (thorough), from both sides. " +
 			"Non-trivial history: a SetLinks that both adds and removes or has duplicates, a count reaching zero, or a delete of a linked entity. Distinct by hash of the history JSON.",
-		Assumptions: []string{"negative counts are not generated (no caller does; semantics unspecified)"},
+		Assumptions: []string{"negative counts are not generated (no caller does; semantics unspecified)",
+			"link collections are declared over AddFkSetSymbol symbols (storage path = [symbol name]), as everywhere in the repository; an entity has child data in at most one child store of its parent"},
 		Gen:         genC05, Run: runC05,
 		QuickChecks: 500, ThoroughFactor: 20,
 		ExhaustiveQuick: exhaustiveC05(3, 3),
